@@ -110,3 +110,29 @@ def oracles(beh):
              mat=torch.linalg.solve(A, B["mat"]), bc=torch.linalg.solve(A, B["bc"]))
     iq = dict(mat=(B["mat"] * X["mat"]).sum(-2), vec=(B["vec"].unsqueeze(-1) * torch.linalg.solve(A, B["vec"].unsqueeze(-1).expand(*A.shape[:-1], 1))).sum(-2))
     return A, X, torch.logdet(A), iq
+
+
+def degenerate_factor(beh, rel=1e-6):
+    """does a square sub-operator of the term (a Kronecker factor, a summand ...) have repeated eigenvalues?  Above max_cholesky_size the
+    Kronecker-structured classes diagonalise their factors by Lanczos, which cannot resolve a repeated eigenvalue (the C09 / C12 family of
+    findings): such instances are reported under their own class tag so that the finding does not cover the well-separated ones."""
+    import torch
+
+    from . import bind
+
+    def walk(t):
+        yield t
+        for o in t.get("ops", []):
+            yield from walk(o)
+
+    for t in list(walk(beh["term"]))[1:]:
+        try:
+            D = bind.build(t, torch.float64).to_dense()
+        except Exception:  # noqa
+            continue
+        if D.shape[-1] != D.shape[-2] or D.shape[-1] < 2 or float((D - D.mT).abs().max()) > 1e-9:
+            continue
+        ev = torch.linalg.eigvalsh(D)
+        if float((ev[..., 1:] - ev[..., :-1]).abs().min()) <= rel * max(1.0, float(ev.abs().max())):
+            return True
+    return False
